@@ -24,25 +24,29 @@ theorem switch_has_inv (c : Compl) (o : Outcome) (h : ({ c with n := c.n || c.b,
 
 theorem switch_complete (ls : List Id) (p : Nat) (d : Kids) (cs : Cases) (o : Outcome)
     (ih : ∀ o', cs.compl.1.has o' = true → ExecCases cs o')
+    (ihd : ∀ o', d.compl.has o' = true → EvalKids d o')
     (h : (Stmt.compl ls (.switchS p d cs)).has o = true) : Exec ls (.switchS p d cs) o := by
-  simp only [Stmt.compl] at h
-  obtain ⟨o', h', rfl⟩ := switch_has_inv _ o h
-  rcases seq_has_inv h' with ⟨ha, hd⟩ | ⟨_, hi⟩
-  · rcases seq_has_inv hd with ⟨_, hd⟩ | ⟨_, ht⟩
-    · obtain ⟨rfl, he⟩ := evalCompl_abrupt_inv ha hd
-      exact .switch_discThrows he
-    · rcases o' with _ | l | l | _ | _
+  rw [compl_switch] at h
+  rcases seq_has_inv h with ⟨ha, hd⟩ | ⟨hdn, hi⟩
+  · rcases seq_has_inv hd with ⟨_, hd⟩ | ⟨hdn, ht⟩
+    · exact .switch_discAbrupt (ihd o hd) ha
+    · rcases o with _ | l | l | _ | _
       · exact absurd rfl ha
       · cases l <;> cases ht
       · cases l <;> cases ht
       · cases ht
-      · exact .switch_testThrows ht
-  · rw [has_union, Bool.or_eq_true] at hi
-    rcases hi with hi | hi
-    · exact .switch_enter (ih o' hi)
-    · simp only [has_guard, Bool.and_eq_true, Bool.not_eq_true'] at hi
-      obtain rfl := normal_has_inv hi.2
-      exact .switch_noMatch (by rw [hasDefault_eq]; exact hi.1)
+      · exact .switch_testThrows (ihd .normal hdn) ht
+  · have hD : EvalKids d .normal := by
+      rcases seq_has_inv hdn with ⟨h', _⟩ | ⟨h', _⟩
+      · exact absurd rfl h'
+      · exact ihd .normal h'
+    obtain ⟨o', h', rfl⟩ := switch_has_inv _ o hi
+    rw [has_union, Bool.or_eq_true] at h'
+    rcases h' with h' | h'
+    · exact .switch_enter hD (ih o' h')
+    · simp only [has_guard, Bool.and_eq_true, Bool.not_eq_true'] at h'
+      obtain rfl := normal_has_inv h'.2
+      exact .switch_noMatch hD (by rw [hasDefault_eq]; exact h'.1)
 
 theorem tryCatch_complete (block : Stmts) (hh : Bool) (ck : Kids) (o : Outcome)
     (ihb : ∀ o', block.compl.has o' = true → ExecList block o')
@@ -110,49 +114,62 @@ theorem labeled_complete (ls : List Id) (p : Nat) (l : Id) (body : Stmt) (o : Ou
   · exact .labeled_other (ih _ h) (by simp) (by simp)
 
 theorem if_complete (ls : List Id) (p : Nat) (test : Kids) (c : Stmt) (alt : Option Stmt) (o : Outcome)
+    (iht : ∀ o', test.compl.has o' = true → EvalKids test o')
     (ihc : ∀ o', (c.compl []).has o' = true → Exec [] c o')
     (iha : ∀ a, alt = some a → ∀ o', (a.compl []).has o' = true → Exec [] a o')
     (h : (Stmt.compl ls (.ifS p test c alt)).has o = true) : Exec ls (.ifS p test c alt) o := by
   cases alt with
   | none =>
     simp only [Stmt.compl] at h
-    rcases seq_has_inv h with ⟨ha, ht⟩ | ⟨_, hb⟩
-    · obtain ⟨rfl, he⟩ := evalCompl_abrupt_inv ha ht; exact .if_testThrows he
+    rcases seq_has_inv h with ⟨ha, ht⟩ | ⟨htn, hb⟩
+    · exact .if_testAbrupt (iht o ht) ha
     · rw [has_union, Bool.or_eq_true] at hb
       rcases hb with hb | hb
-      · exact .if_then (ihc _ hb)
-      · obtain rfl := normal_has_inv hb; exact .if_skip
+      · exact .if_then (iht _ htn) (ihc _ hb)
+      · obtain rfl := normal_has_inv hb; exact .if_skip (iht _ htn)
   | some a =>
     simp only [Stmt.compl] at h
-    rcases seq_has_inv h with ⟨ha, ht⟩ | ⟨_, hb⟩
-    · obtain ⟨rfl, he⟩ := evalCompl_abrupt_inv ha ht; exact .if_testThrows he
+    rcases seq_has_inv h with ⟨ha, ht⟩ | ⟨htn, hb⟩
+    · exact .if_testAbrupt (iht o ht) ha
     · rw [has_union, Bool.or_eq_true] at hb
       rcases hb with hb | hb
-      · exact .if_then (ihc _ hb)
-      · exact .if_else (iha a rfl _ hb)
+      · exact .if_then (iht _ htn) (ihc _ hb)
+      · exact .if_else (iht _ htn) (iha a rfl _ hb)
+
+theorem exprOwn_has_inv {e : EKind} {o : Outcome} (h : (exprOwn e).has o = true) : o = .normal ∨ (o = .thr ∧ e = .other) := by
+  rw [has_exprOwn] at h
+  rcases o with _ | l | l | _ | _ <;> simp at h
+  · exact Or.inl rfl
+  · cases e <;> simp at h
+    exact Or.inr ⟨rfl, rfl⟩
 
 mutual
 theorem Stmt.complete : ∀ (s : Stmt) (ls : List Id) (o : Outcome), (s.compl ls).has o = true → Exec ls s o
-  | .simple p t kids, ls, o, h => .simple (evalCompl_has_inv (by simpa [Stmt.compl] using h))
+  | .simple p t kids, ls, o, h => .simple (Kids.complete kids o (by simpa [Stmt.compl] using h))
   | .block p body, ls, o, h => .block (Stmts.complete body o (by simpa [Stmt.compl] using h))
   | .ifS p test c none, ls, o, h =>
-    if_complete ls p test c none o (fun o' => Stmt.complete c [] o') (fun _ e => by cases e) h
+    if_complete ls p test c none o (fun o' => Kids.complete test o') (fun o' => Stmt.complete c [] o') (fun _ e => by cases e) h
   | .ifS p test c (some a), ls, o, h =>
-    if_complete ls p test c (some a) o (fun o' => Stmt.complete c [] o')
+    if_complete ls p test c (some a) o (fun o' => Kids.complete test o') (fun o' => Stmt.complete c [] o')
       (fun a' e => by cases e; exact fun o' => Stmt.complete a [] o') h
-  | .whileS p test tt body, ls, o, h => while_complete ls p test tt body o (fun o' => Stmt.complete body [] o') h
-  | .doWhileS p body test tt, ls, o, h => doWhile_complete ls p body test tt o (fun o' => Stmt.complete body [] o') h
+  | .whileS p test tt body, ls, o, h =>
+    while_complete ls p test tt body o (fun o' => Stmt.complete body [] o') (fun o' => Kids.complete test o') h
+  | .doWhileS p body test tt, ls, o, h =>
+    doWhile_complete ls p body test tt o (fun o' => Stmt.complete body [] o') (fun o' => Kids.complete test o') h
   | .forS p i u t ht tt body, ls, o, h => by
     rw [compl_for] at h
-    rcases seq_has_inv h with ⟨ha, hi⟩ | ⟨_, hl⟩
-    · obtain ⟨rfl, he⟩ := evalCompl_abrupt_inv ha hi; exact .for_initThrows he
-    · exact .for_loop (forLoop_complete ls u t ht tt body o (fun o' => Stmt.complete body [] o') hl)
+    rcases seq_has_inv h with ⟨ha, hi⟩ | ⟨hin, hl⟩
+    · exact .for_initAbrupt (Kids.complete i o hi) ha
+    · exact .for_loop (Kids.complete i .normal hin) (forLoop_complete ls u t ht tt body o (fun o' => Stmt.complete body [] o')
+        (fun o' => Kids.complete t o') (fun o' => Kids.complete u o') hl)
   | .forInOf p l r body, ls, o, h => by
     rw [has_compl_forIn] at h
-    rcases seq_has_inv h with ⟨ha, hi⟩ | ⟨_, hl⟩
-    · obtain ⟨rfl, he⟩ := evalCompl_abrupt_inv ha hi; exact .forIn_rightThrows he
-    · exact .forIn_loop (forIn_complete ls l body o (fun o' => Stmt.complete body [] o') hl)
-  | .switchS p d cs, ls, o, h => switch_complete ls p d cs o (fun o' => Cases.complete cs o') h
+    rcases seq_has_inv h with ⟨ha, hi⟩ | ⟨hrn, hl⟩
+    · exact .forIn_rightAbrupt (Kids.complete r o hi) ha
+    · exact .forIn_loop (Kids.complete r .normal hrn) (forIn_complete ls l body o (fun o' => Stmt.complete body [] o')
+        (fun o' => Kids.complete l o') hl)
+  | .switchS p d cs, ls, o, h =>
+    switch_complete ls p d cs o (fun o' => Cases.complete cs o') (fun o' => Kids.complete d o') h
   | .tryS p bp block hh cp ck hf fp fin, ls, o, h =>
     try_complete ls p bp block hh cp ck hf fp fin o (fun o' => Stmts.complete block o') (fun o' => Kids.complete_catch ck o')
       (fun o' => Stmts.complete fin o') h
@@ -187,27 +204,46 @@ theorem Stmt.complete : ∀ (s : Stmt) (ls : List Id) (o : Outcome), (s.compl ls
       subst this; exact .cont
   | .ret p arg, ls, o, h => by
     simp only [Stmt.compl] at h
-    rcases seq_has_inv h with ⟨ha, hi⟩ | ⟨_, hr⟩
-    · obtain ⟨rfl, he⟩ := evalCompl_abrupt_inv ha hi; exact .ret_argThrows he
+    rcases seq_has_inv h with ⟨ha, hi⟩ | ⟨hn, hr⟩
+    · exact .ret_argAbrupt (Kids.complete arg o hi) ha
     · rw [has_single_ret] at hr
       cases o <;> simp at hr
-      exact .ret
+      exact .ret (Kids.complete arg .normal hn)
   | .throw p arg, ls, o, h => by
     simp only [Stmt.compl] at h
-    rcases seq_has_inv h with ⟨ha, hi⟩ | ⟨_, hr⟩
-    · obtain ⟨rfl, _⟩ := evalCompl_abrupt_inv ha hi; exact .throw
+    rcases seq_has_inv h with ⟨ha, hi⟩ | ⟨hn, hr⟩
+    · exact .throw_argAbrupt (Kids.complete arg o hi) ha
     · rw [has_single_thr] at hr
       cases o <;> simp at hr
-      exact .throw
+      exact .throw (Kids.complete arg .normal hn)
 theorem Stmts.complete : ∀ (l : Stmts) (o : Outcome), l.compl.has o = true → ExecList l o
-  | .nil, o, h => by obtain rfl := normal_has_inv h; exact .nil
+  | .nil, o, h => by obtain rfl := normal_has_inv (by simpa [Stmts.compl] using h); exact .nil
   | .cons s r, o, h => by
     simp only [Stmts.compl] at h
     rcases seq_has_inv h with ⟨ha, hs⟩ | ⟨hn, hr⟩
     · exact .stop (Stmt.complete s [] o hs) ha
     · exact .next (Stmt.complete s [] .normal hn) (Stmts.complete r o hr)
+theorem Kid.complete : ∀ (k : Kid) (o : Outcome), k.compl.has o = true → EvalKid k o
+  | .expr e ks, o, h => by
+    simp only [Kid.compl] at h
+    rcases seq_has_inv h with ⟨ha, hs⟩ | ⟨hn, hr⟩
+    · exact .sub (Kids.complete ks o hs) ha
+    · rcases exprOwn_has_inv hr with rfl | ⟨rfl, rfl⟩
+      · exact .expr (Kids.complete ks .normal hn)
+      · exact .exprThrows (Kids.complete ks .normal hn)
+  | .fnScope p ks, o, h => by
+    obtain rfl := normal_has_inv (by simpa [Kid.compl] using h); exact .fnScope
+  | .block p body, o, h => .block (Stmts.complete body o (by simpa [Kid.compl] using h))
+  | .stmt s, o, h => .stmt (Stmt.complete s [] o (by simpa [Kid.compl] using h))
+theorem Kids.complete : ∀ (ks : Kids) (o : Outcome), ks.compl.has o = true → EvalKids ks o
+  | .nil, o, h => by obtain rfl := normal_has_inv (by simpa [Kids.compl] using h); exact .nil
+  | .cons k r, o, h => by
+    simp only [Kids.compl] at h
+    rcases seq_has_inv h with ⟨ha, hs⟩ | ⟨hn, hr⟩
+    · exact .stop (Kid.complete k o hs) ha
+    · exact .next (Kid.complete k .normal hn) (Kids.complete r o hr)
 theorem Cases.complete_fall : ∀ (cs : Cases) (o : Outcome), cs.fallCompl.has o = true → ExecFall cs o
-  | .nil, o, h => by obtain rfl := normal_has_inv h; exact .nil
+  | .nil, o, h => by obtain rfl := normal_has_inv (by simpa [Cases.fallCompl] using h); exact .nil
   | .cons p d t body r, o, h => by
     simp only [Cases.fallCompl] at h
     rcases seq_has_inv h with ⟨ha, hs⟩ | ⟨hn, hr⟩
@@ -224,7 +260,7 @@ theorem Cases.complete : ∀ (cs : Cases) (o : Outcome), cs.compl.1.has o = true
       · exact .next (Stmts.complete body .normal hn) (Cases.complete_fall r o hr)
     · exact .later (Cases.complete r o h)
 theorem Kids.complete_catch : ∀ (ks : Kids) (o : Outcome), ks.catchCompl.has o = true → ExecCatch ks o
-  | .nil, o, h => by obtain rfl := normal_has_inv h; exact .nil
+  | .nil, o, h => by obtain rfl := normal_has_inv (by simpa [Kids.catchCompl] using h); exact .nil
   | .cons (.block q body) r, o, h => by
     simp only [Kids.catchCompl] at h
     rcases seq_has_inv h with ⟨ha, hs⟩ | ⟨hn, hr⟩
